@@ -33,7 +33,7 @@ ENGINE = "enumeration + hypothesis"
 ALPHA = ["a", "b", "ab"]
 ABSENT = "zz"
 COUNTS = [None, 0, 1, 2, 4, -1, -2, -5]
-REQUIRED_CLASSES = ["after:cell-assign-by-position", "after:cell-assign-by-name", "after:whole-column:item",
+REQUIRED_CLASSES = ["cell-assign-by-negative-position", "name-with-single-separator-character", "after:cell-assign-by-position", "after:cell-assign-by-name", "after:whole-column:item",
                     "after:whole-column:attr", "form:negative-count", "form:offset", "form:absent-name", "labels", "rows>=17"]
 
 
@@ -248,7 +248,10 @@ def replay_exh(ctx, case):
 
 
 # ------------------------------------------------------------------ generated scripts
-NAME_POOL = ["a", "b", "ab", "c", "ip1", "ip2", "mq.1", "tab$end", "b$b", "A1"]
+# names may hold a SINGLE separator character (MAD-X style 'mq:1', 'x->y'): only the two-character separator strings
+# '::', '<<', '>>' are reserved (and no name starts or ends with one of their characters, which would be ambiguous
+# next to a separator)
+NAME_POOL = ["a", "b", "ab", "c", "ip1", "ip2", "mq.1", "tab$end", "b$b", "A1", "mq:1", "b<a", "x->y"]
 
 
 @st.composite
@@ -296,7 +299,7 @@ def scripts(draw):
             steps.append({"op": "set_index_all", "names": new, "how": draw(st.sampled_from(["item", "attr"]))})
             model["names"] = list(new)
         elif kind == "cell_pos" and n:
-            pos = draw(st.integers(0, n - 1))
+            pos = draw(st.integers(-n, n - 1))     # a position may be given from the end, as for any sequence
             new = draw(st.sampled_from(pool))
             steps.append({"op": "cell_pos", "pos": pos, "new": new})
             model["names"][pos] = new
@@ -309,7 +312,7 @@ def scripts(draw):
             except KeyError:
                 pass
         elif kind == "num_cell" and n:
-            pos = draw(st.integers(0, n - 1))
+            pos = draw(st.integers(-n, n - 1))
             col = draw(st.sampled_from(sorted(model["cols"])))
             val = draw(st.integers(-50, 50))
             steps.append({"op": "num_cell", "pos": pos, "col": col, "val": val})
@@ -403,6 +406,10 @@ def exec_script(ctx, case):
                 t[index, s["pos"]] = s["new"]
                 names[s["pos"]] = s["new"]
                 mutated.append("cell-assign-by-position")
+                if s["pos"] < 0:
+                    classes.add("cell-assign-by-negative-position")
+                if any(ch in s["new"] for ch in ":<>"):
+                    classes.add("name-with-single-separator-character")
             elif op == "cell_name":
                 row = TR.spec_str(s["spec"]) if s["form"] == "str" else TR.spec_tuple(s["spec"])
                 try:
